@@ -202,10 +202,9 @@ func (o opT) String() string {
 }
 
 type stT struct {
-	Src      map[string]string // pk -> fk
-	Idx      map[string]bool   // "fk|pk"
-	Mig, Rd  bool
-	srcOrder []string
+	Src     map[string]string // pk -> fk
+	Idx     map[string]bool   // "fk|pk"
+	Mig, Rd bool
 }
 
 type walkT struct {
@@ -350,11 +349,11 @@ type kvCase struct {
 // ---------------------------------------------------------------- concretisation
 
 var fkPairs = [][2]string{
-	{"a", "ab"},   // one foreign key is a prefix of the other (Walk's cursor runs over the prefix)
+	{"a", "ab"}, // one foreign key is a prefix of the other (Walk's cursor runs over the prefix)
 	{"ab", "a"},
-	{"", "a"},     // the empty foreign key: index keys "/pk", prefix of everything
-	{"a", "a."},   // '.' sorts below the separator
-	{"a", "a0"},   // '0' sorts above the separator
+	{"", "a"},   // the empty foreign key: index keys "/pk", prefix of everything
+	{"a", "a."}, // '.' sorts below the separator
+	{"a", "a0"}, // '0' sorts above the separator
 	{"user-1", "user-2"},
 	{"\x00", "\x00\x00"},
 	{"\xff", "\xfe\xff"},
@@ -576,6 +575,9 @@ func (w *world) reset() error {
 }
 
 func (w *world) migration(cl bool, defaultBatch bool) *kv.IndexMigration {
+	if w.level == "urm" && cl && (w.cc.batch == 0 || defaultBatch) {
+		return all.Migration0002_AddURMByUserIndex // the migration the server runs
+	}
 	var opts []kv.IndexMigrationOption
 	if cl {
 		opts = append(opts, kv.WithIndexMigrationCleanup)
@@ -787,7 +789,9 @@ func sortedKeys(m map[string]bool) []string {
 	return out
 }
 
-func eqStrs(a, b []string) bool { return strings.Join(a, "\x1f") == strings.Join(b, "\x1f") && len(a) == len(b) }
+func eqStrs(a, b []string) bool {
+	return strings.Join(a, "\x1f") == strings.Join(b, "\x1f") && len(a) == len(b)
+}
 
 func diffMap(m map[string]map[string]struct{}, cc *conc) []string {
 	out := []string{}
@@ -1034,7 +1038,6 @@ func (ck *checker) step(s *stepT, st *stT, obs *obsT) (string, interface{}, inte
 
 // leadHolds: does the REAL store show the contract violation the lead names?
 func leadHolds(lead string, w *world, last *stepT, before, after [2][]rawPair) bool {
-	cc := w.cc
 	switch lead {
 	case "stale_index_entry_invisible":
 		// an index entry <<fk1, pk>> whose record in the source says fk2: Verify reports it in neither set, a cleaning Populate
@@ -1073,7 +1076,6 @@ func leadHolds(lead string, w *world, last *stepT, before, after [2][]rawPair) b
 			for _, v := range vis {
 				handed = handed || bytes.Equal(v.k, pk)
 			}
-			_ = cc
 			return kept && err == nil && handed
 		}
 		return false
